@@ -100,7 +100,7 @@ class Inline:
             # verbatim content: words and specials, no backtick
             # (text inside a quote may not contain that quote's delimiter character, inner code quotes included)
             toks = [t for t in PLAIN + ['<b>', '&amp;', '*x*', 'http://u.v/', '_', '[a](b)', '<', '&', '~~', '**y**']
-                    if not any(ch in t for ch in banned)]
+                    if not any(ch in t for ch in banned) and not (q[-1] == '^' and t[0] == '[')]     # `^[a](b)` is a link form
             body = ' '.join(rng.choice(toks) for _ in range(rng.randint(1, 3)))
             if body.endswith('\\'):
                 body += 'x'
